@@ -750,12 +750,7 @@ class Task:
             if parent in self.all_children:
                 raise RuntimeError(f"Task {parent.id} is a child of task {self.id}. Can't make child "
                                    f"a parent of its parent")
-            new_parents = [parent] + [p for p in parent.all_parents]
-            for t in [self] + [ch for ch in self.all_children]:
-                for p in new_parents:
-                    if p in t.__predecessors or p in t.__successors:
-                        raise RuntimeError(f"Task {p.id} is a predecessor or successor of task {t.id}. "
-                                           f"Can't make it a parent of this task")
+            self.__check_no_links_with_parents(parent)
 
         if self.__parent is not None and self in self.__parent.__children:
             self.__parent.__children.remove(self)
@@ -771,6 +766,14 @@ class Task:
             self._attach(parent.__wbs)
             if parent and self not in parent.__children:
                 parent.__children.append(self)
+
+    def __check_no_links_with_parents(self, parent: 'Task'):
+        new_parents = [parent] + [p for p in parent.all_parents]
+        for t in [self] + [ch for ch in self.all_children]:
+            for p in new_parents:
+                if p in t.__predecessors or p in t.__successors:
+                    raise RuntimeError(f"Task {p.id} is a predecessor or successor of task {t.id}. "
+                                       f"Can't make it a parent of this task")
 
     @property
     def all_parents(self) -> _ImmutableTaskList:
@@ -821,6 +824,7 @@ class Task:
                 raise RuntimeError(f"Task {self.id} can't be a child of itself")
             if self in ch.all_children:
                 raise RuntimeError(f"Task {self.id} is a child of {ch.id}. Can't make child a parent of its parent")
+            ch.__check_no_links_with_parents(self)
 
         for v in self.__children:
             v.__parent = None
